@@ -17,23 +17,40 @@
 (* A handler h has the dial addresses Dial[h] (a sequence) and fails at    *)
 (* FailAt[h] (0 = provisions completely).  CleanupWhatWasStored = FALSE is *)
 (* the code as it is; TRUE deletes only what this handler stored.          *)
+(*                                                                         *)
+(* Active health checks: a handler in Active runs a checker goroutine      *)
+(* (started by Provision, stopped when its context is cancelled) that      *)
+(* dials each of its peers and records the verdict with peer.setHealthy -  *)
+(* IN THE POOLED PEER, so the verdict outlives the handler that wrote it.  *)
+(* A handler that shares the address but has no active checks configured   *)
+(* reads that verdict (Upstream.healthy) and has nobody to revise it.      *)
+(* VerdictPerHandler = FALSE is the code as it is; TRUE keeps the verdict  *)
+(* with the handler's own upstream (as Caddy's reverse_proxy does).        *)
+(* `up` is the real state of the backend, flipped at most MaxFlips times.  *)
 (***************************************************************************)
 EXTENDS Integers, Sequences, FiniteSets, TLC
 
-CONSTANTS Handlers, Addrs, Dial, FailAt, CleanupWhatWasStored
+CONSTANTS Handlers, Addrs, Dial, FailAt, CleanupWhatWasStored, Active, VerdictPerHandler, MaxFlips
 
 VARIABLES phase,   \* [h -> "new" | "provisioned" | "failed" | "cleaned"]
           stored,  \* [h -> number of leading dial addresses this handler has LoadOrStore'd]
           holds,   \* [h -> [addr -> peer id the handler's upstreams point to, 0 = none]]
           pool,    \* [addr -> peer id in the pool, 0 = no entry]
           refs,    \* [addr -> reference count of the pool entry]
-          nextId
-vars == <<phase, stored, holds, pool, refs, nextId>>
+          nextId,
+          up,      \* [addr -> the backend accepts connections]
+          down,    \* [peer id -> verdict "unhealthy" stored in the pooled peer]    (VerdictPerHandler = FALSE)
+          hdown,   \* [h -> [addr -> verdict "unhealthy" stored with the handler]]   (VerdictPerHandler = TRUE)
+          flips
+vars == <<phase, stored, holds, pool, refs, nextId, up, down, hdown, flips>>
+PeerIds == 1..(Cardinality(Handlers) * Cardinality(Addrs) * 3 + 1)
 
 Range(s) == { s[i] : i \in DOMAIN s }
 Init == /\ phase = [h \in Handlers |-> "new"] /\ stored = [h \in Handlers |-> 0]
         /\ holds = [h \in Handlers |-> [a \in Addrs |-> 0]]
         /\ pool = [a \in Addrs |-> 0] /\ refs = [a \in Addrs |-> 0] /\ nextId = 1
+        /\ up = [a \in Addrs |-> TRUE] /\ down = [i \in PeerIds |-> FALSE]
+        /\ hdown = [h \in Handlers |-> [a \in Addrs |-> FALSE]] /\ flips = 0
 
 \* LoadOrStore of the first n dial addresses of h, one after the other
 RECURSIVE Store(_, _, _, _, _, _)
@@ -60,6 +77,7 @@ Provision(h) ==
      /\ pool' = r[1] /\ refs' = r[2] /\ holds' = [holds EXCEPT ![h] = r[3][1]] /\ nextId' = r[3][2]
      /\ stored' = [stored EXCEPT ![h] = n]
      /\ phase' = [phase EXCEPT ![h] = IF FailAt[h] = 0 THEN "provisioned" ELSE "failed"]
+  /\ UNCHANGED <<up, down, hdown, flips>>
 
 \* Caddy: after a failed Provision, and when a provisioned module is unloaded
 Cleanup(h) ==
@@ -68,9 +86,21 @@ Cleanup(h) ==
          r == Del(seq, 1, pool, refs) IN
      /\ pool' = r[1] /\ refs' = r[2]
   /\ phase' = [phase EXCEPT ![h] = "cleaned"]
-  /\ UNCHANGED <<stored, holds, nextId>>
+  /\ UNCHANGED <<stored, holds, nextId, up, down, hdown, flips>>
 
-Next == \E h \in Handlers : Provision(h) \/ Cleanup(h)
+\* the backend goes down / comes back
+Flip(a) == /\ flips < MaxFlips /\ flips' = flips + 1 /\ up' = [up EXCEPT ![a] = ~@]
+           /\ UNCHANGED <<phase, stored, holds, pool, refs, nextId, down, hdown>>
+\* one dial of the active checker of a live handler (doActiveHealthCheck): the verdict is what the backend does now
+ActiveCheck(h, a) ==
+  /\ h \in Active /\ phase[h] = "provisioned" /\ a \in Range(Dial[h]) /\ holds[h][a] # 0
+  /\ IF VerdictPerHandler
+     THEN hdown' = [hdown EXCEPT ![h][a] = ~up[a]] /\ UNCHANGED down
+     ELSE down' = [down EXCEPT ![holds[h][a]] = ~up[a]] /\ UNCHANGED hdown
+  /\ UNCHANGED <<phase, stored, holds, pool, refs, nextId, up, flips>>
+
+Next == \/ \E h \in Handlers : Provision(h) \/ Cleanup(h) \/ \E a \in Addrs : ActiveCheck(h, a)
+        \/ \E a \in Addrs : Flip(a)
 Spec == Init /\ [][Next]_vars
 
 Users(a) == { h \in Handlers : phase[h] = "provisioned" /\ a \in Range(Dial[h]) }
@@ -82,4 +112,13 @@ RECURSIVE Sum(_, _)
 Sum(S, a) == IF S = {} THEN 0 ELSE LET h == CHOOSE x \in S : TRUE IN Uses(h, a) + Sum(S \ {h}, a)
 RefsExact == \A a \in Addrs :
                (\A h \in Handlers : phase[h] # "failed") => refs[a] = Sum({ h \in Handlers : phase[h] = "provisioned" }, a)
+\* what Upstream.healthy reads for address a of live handler h
+SeesDown(h, a) == IF VerdictPerHandler THEN hdown[h][a] ELSE (holds[h][a] # 0 /\ down[holds[h][a]])
+\* a verdict "unhealthy" that a live handler acts on can be revised: some live handler with active checks
+\* writes to the very place this one reads.  Otherwise the upstream stays out of rotation for good
+\* although the backend is back - until the process restarts.
+Watched == \A h \in Handlers : phase[h] = "provisioned" =>
+             \A a \in Range(Dial[h]) : SeesDown(h, a) =>
+               \E g \in Active : /\ phase[g] = "provisioned" /\ a \in Range(Dial[g])
+                                  /\ IF VerdictPerHandler THEN g = h ELSE holds[g][a] = holds[h][a]
 =============================================================================
